@@ -22,9 +22,10 @@ def spaces():
     root.add_discrete_param('di', [1, 2])
     root.add_discrete_param('df', [0.5, 1.0])
     root.add_discrete_param('dn', [1, 2], auto_cast=False)
+    root.add_discrete_param('dnear', [0.29 * 100, 0.57 * 100])     # 28.999999999999996, 56.99999999999999: floats, not integers
     root.add_categorical_param('c', ['a', 'b'])
     root.add_bool_param('b')
-  out['flat'] = (flat, {'f': ('float', [0.0, 0.5, 1.0], None), 'i': ('num', [0, 2], None), 'di': ('int', [1, 2], None), 'df': ('float', [0.5, 1.0], None),
+  out['flat'] = (flat, {'dnear': ('float', [0.29 * 100, 0.57 * 100], None), 'f': ('float', [0.0, 0.5, 1.0], None), 'i': ('num', [0, 2], None), 'di': ('int', [1, 2], None), 'df': ('float', [0.5, 1.0], None),
                         'dn': ('float', [1, 2], None), 'c': ('str', ['a', 'b'], None), 'b': ('bool', ['True', 'False'], None)})
 
   # ---- a "sibling" of the flat space: the same parameter names with other kinds / domains (two studies of one client process)
